@@ -1814,6 +1814,7 @@ func TestConc(t *testing.T) {
 	}
 	if prop == "C02" && os.Getenv("VERIF_TEMPLATE") == "" {
 		nameIdentityProbe(res, prop)
+		freeNeverBusyProbe(res, prop)
 	}
 	if prop == "C01" && os.Getenv("VERIF_TEMPLATE") == "" {
 		parallelCapacityProbe(res, prop)
